@@ -99,7 +99,7 @@ Proof.
   rewrite Hn2 in E1. clear Hn2.
   set (n2 := set_lock n1 0 None) in *.
   assert (F2 : fresh_lock (v_round v) n2) by (unfold fresh_lock; reflexivity).
-  revert E1. destruct ((round n2 <=? v_round v) && any23 (hv_prevotes (votes n1) (v_round v))); intro E1.
+  revert E1. destruct (_ && any23_open _ _); intro E1.
   - apply bind_ok in E1 as (n3 & oa & ob & Ea1 & Ea2 & _).
     pose proof (fresh_enter_new_round _ _ _ _ _ _ Ea1 F2) as F3.
     revert Ea2. destruct (maj23 (hv_prevotes (votes n3) (v_round v))); intro Ea2.
